@@ -71,7 +71,7 @@ def near(draw, x, lo=-12.0, hi=-1.0):
 def ratio_tuple(draw, n):
     """n positive numbers with pairwise ratios in [1e-6, 1e6] and structured degeneracies"""
     mode = draw(st.sampled_from(["generic", "generic", "pair", "triple", "near1", "two-near1", "equal", "perm1", "hier", "corner",
-                                    "pair-near1"]))
+                                    "pair-near1", "hier-equal"]))
     base = draw(logu(1e-3, 1e3))
     xs = [base * draw(logu(1e-3, 1e3)) for _ in range(n)]
     if mode == "pair" and n >= 2:
@@ -91,6 +91,14 @@ def ratio_tuple(draw, n):
         xs[1] = draw(near(xs[0], -12.0, -3.0))
         if n >= 3 and draw(st.booleans()):
             xs[2] = draw(near(xs[0], -12.0, -3.0))
+    elif mode == "hier-equal" and n >= 3:
+        # an exactly (or to a few ulps) degenerate pair far below or far above the third argument: the equal-argument
+        # branches have their own small-ratio expansions (Phi: series of (1 - sqrt(1 - 4u))/2 for u < 2.2e-4)
+        big = base * draw(logu(1.0, 1e3))
+        small = big * draw(logu(1e-6, 1e-3))
+        pair, single = (small, big) if draw(st.booleans()) else (big, small)
+        second = pair if draw(st.integers(0, 2)) else math.nextafter(pair, math.inf)
+        xs = [pair, second, single] + xs[3:]
     elif mode == "equal":
         k = draw(st.integers(2, n)) if n >= 2 else 1
         for i in range(1, k):
